@@ -28,7 +28,7 @@ ASSUMPTIONS = ['the object interface (Fitter.fit + keep) is the reference for re
                'filter_output may raise on a record with zero fits, but then must raise the same class on every channel']
 PROBES = ['zero_fit_record_reached_consumer', 'ineligible_line_skipped', 'short_line_ended_input', 'lines_after_terminator_ignored',
           'preexisting_output_replaced', 'restart_after_crash', 'restart_after_enospc', 'prompt_n_abort', 'channel_list', 'channel_obj',
-          'channel_path', 'nan_result_record', 'crash_inside_metadata', 'no_final_newline', 'prelude_epoch', 'channel_fresh', 'intruder_fit']
+          'channel_path', 'nan_result_record', 'crash_inside_metadata', 'no_final_newline', 'prelude_epoch', 'channel_fresh', 'intruder_fit', 'manual_source_edited_in_place', 'manual_same_source_object_written_again']
 
 
 def budgets(tier):
@@ -37,7 +37,30 @@ def budgets(tier):
     return {'runs': 20000, 'max_wall': 1500, 'chunk': 10}
 
 
+def _generate_manual(rng, tier):
+    """An interactive user writes the file: Fitter.fit + FitInfoFile.write in a loop over a few Source OBJECTS that are
+    re-used and edited in place between fits (leave-one-band-out, rescaled copies, renamed sources)."""
+    w = gen_world(rng, n_models=(1, 6), n_wav=(5, 14), n_filters=(2, 4), n_ap=(2, 4), n_par=(1, 1), allow_gz=False, allow_subdir=False)
+    w['ext_n'] = rng.choice([3, 8])
+    nf = len(w['filters'])
+    pool = [gen_source(rng, nf, 'obj%d' % i, min_fit=1) for i in range(rng.randint(1, 3))]
+    steps = []
+    for _ in range(rng.randint(2, 7)):
+        if rng.random() < 0.4:
+            steps.append({'op': 'edit', 'src': rng.randrange(len(pool)), 'kind': rng.choice(['scale', 'flag', 'error', 'one_flux', 'rename']),
+                          'k': rng.randrange(nf), 'c': float('%.3g' % (10 ** rng.uniform(-1, 1))), 'flag': rng.choice([0, 1, 9])})
+        else:
+            steps.append({'op': 'fit_write', 'src': rng.randrange(len(pool)), 'sel': pipe.gen_selector(rng, w['n_models']), 'fluxes': rng.random() < 0.5})
+    if not any(st['op'] == 'fit_write' for st in steps):
+        steps.append({'op': 'fit_write', 'src': 0, 'sel': ['A', 0], 'fluxes': False})
+    return {'family': 'manual', 'world': w, 'pool': pool, 'steps': steps, 'memmap': rng.random() < 0.5, 'clock': {'kind': 'steady'},
+            'listing_seed': rng.randrange(1 << 30), 'theta_seed': rng.randrange(1 << 30),
+            'av_range': [0.0, round(rng.uniform(2, 30), 2)], 'drange': [1.0, rng.choice([1.0, 2.0])]}
+
+
 def generate(rng, tier, idx):
+    if rng.random() < 0.12:
+        return _generate_manual(rng, tier)
     w = gen_world(rng, n_models=(1, 6), n_wav=(5, 14), n_filters=(1, 4), n_ap=(2, 4), n_par=(1, 2), allow_zero_band=True)
     w['ext_n'] = rng.choice([3, 8, 40])
     if rng.random() < 0.03:
@@ -123,7 +146,78 @@ def _writer(sc, sim, W, d, text, outp):
                      output_convolved=sc['output_convolved'], remove_resolved=bool(sc.get('remove_resolved')), **pipe.fitter_kwargs(W, sc))
 
 
+def _execute_manual(sc, sim, out):
+    from ..author import make_source
+    from .C11 import _apply_edit
+    W = World(sc['world'])
+    rng = random.Random(sc['theta_seed'])
+    sc = dict(sc, theta=pipe.theta_for(W, rng, len(W.fspec), dmin=sc['drange'][0]))
+    d = W.write(sim.path('pkg'))
+    r = pipe.call(pipe.convolve_model_dir, d, W.filters())
+    if r[0] != 'ok':
+        out.discarded = 'setup-convolve:' + pipe.exc_name(r)
+        return
+    names, ap = pipe.filter_args(W, sc)
+    rf = pipe.call(pipe.Fitter, names, ap, d, use_memmap=sc['memmap'], **pipe.fitter_kwargs(W, sc))
+    if rf[0] != 'ok':
+        out.discarded = 'setup-fitter:' + pipe.exc_name(rf)
+        return
+    pool = [make_source(s0) for s0 in sc['pool']]
+    outp = sim.path('manual.fitinfo')
+    f = pipe.FitInfoFile(outp, 'w')
+    written = []
+    shape = []
+    for k, st in enumerate(sc['steps']):
+        src = pool[st['src']]
+        if st['op'] == 'edit':
+            if st['kind'] == 'rename':
+                src.name = src.name + '_v%d' % k
+            else:
+                _apply_edit(src, st)
+            out.probe('manual_source_edited_in_place')
+            shape.append(('edit', st['kind']))
+            continue
+        ri = pipe.call(rf[1].fit, src)
+        if ri[0] != 'ok':
+            out.discarded = 'setup-fit:' + pipe.exc_name(ri)
+            return
+        info = ri[1]
+        if not st['fluxes']:
+            info.model_fluxes = None
+        info.keep(tuple(st['sel']))
+        written.append(canon_record(info, meta=True))          # what is handed to the writer, at the moment it is written
+        rw = pipe.call(f.write, info)
+        if rw[0] != 'ok':
+            out.violate('writer-failed', 'FitInfoFile.write raised %s: %s' % (pipe.exc_name(rw), rw[1]), key='write/%s' % pipe.exc_name(rw))
+            return
+        if any(x.get('src') == st['src'] and x['op'] == 'fit_write' for x in sc['steps'][:k]):
+            out.probe('manual_same_source_object_written_again')
+        shape.append(('write', st['src'], st['sel'][0]))
+    pipe.call(f.close)
+    for label, reader in (('raw pickle stream', lambda: pipe.read_fit_raw(outp)[1]), ('FitInfoFile', lambda: pipe.read_fit_sed(outp))):
+        rr = pipe.call(reader)
+        out.compared('manual-file-vs-written', len(written))
+        if rr[0] != 'ok':
+            out.violate('reader-failed', 'reading the file (%s) raised %s' % (label, pipe.exc_name(rr)), key='manual/%s' % pipe.exc_name(rr))
+            return
+        try:
+            got = [canon_record(x, meta=True) for x in rr[1]]
+        except Exception as e:
+            out.violate('file-record-malformed', '%s: %s' % (type(e).__name__, e))
+            return
+        if len(got) != len(written):
+            out.violate('record-count', 'file holds %d records, %d were written (%s)' % (len(got), len(written), label))
+            return
+        for i, (a, b) in enumerate(zip(got, written)):
+            if a != b:
+                out.violate('reader-differs', 'record %d read back (%s) differs from what was written in %s' % (i, label, describe_diff(a, b)), key='manual')
+                return
+    out.trace = ['manual', sc['world']['format'], sc['memmap'], tuple(shape)]
+
+
 def _execute(sc, sim, out):
+    if sc.get('family') == 'manual':
+        return _execute_manual(sc, sim, out)
     W = World(sc['world'])
     rng = random.Random(sc['theta_seed'])
     sc = dict(sc, theta=pipe.theta_for(W, rng, len(W.fspec), dmin=sc['drange'][0]))
@@ -360,10 +454,25 @@ def _execute(sc, sim, out):
 
 
 def repair(sc):
+    if sc.get('family') == 'manual' and not any(st['op'] == 'fit_write' for st in sc['steps']):
+        return None
     return sc
 
 
 def lowerings(sc, viol=None):
+    if sc.get('family') == 'manual':
+        if sc['memmap']:
+            yield dict(sc, memmap=False)
+        for i, st in enumerate(sc['steps']):
+            if st['op'] == 'fit_write' and (st['sel'] != ['A', 0] or st['fluxes']):
+                yield dict(sc, steps=sc['steps'][:i] + [dict(st, sel=['A', 0], fluxes=False)] + sc['steps'][i + 1:])
+        w = sc['world']
+        if w['n_models'] > 1:
+            w2 = dict(w, n_models=1, mixed=None, zero_band=None)
+            if w2.get('asc_per_file') is not None:
+                w2['asc_per_file'] = w2['asc_per_file'][:1]
+            yield dict(sc, world=w2)
+        return
     if sc.get('prelude'):
         yield dict(sc, prelude=None)
     if sc.get('intruder'):
